@@ -48,10 +48,14 @@ def sync_properties(
     :param output_param_wrap: ```Optional[str]```
     """
     with open(path.realpath(path.expanduser(input_filename)), "rt") as f:
-        input_ast = ast_parse(f.read(), filename=input_filename)
+        input_ast = ast_parse(
+            f.read(), filename=input_filename, skip_docstring_remit=True
+        )
 
     with open(path.realpath(path.expanduser(output_filename)), "rt") as f:
-        output_ast = ast_parse(f.read(), filename=output_filename)
+        output_ast = ast_parse(
+            f.read(), filename=output_filename, skip_docstring_remit=True
+        )
 
     assert len(input_params) == len(output_params)
     for (input_param, output_param) in zip(input_params, output_params):
